@@ -210,3 +210,4 @@ def check(facts, rep, tier, cfg):
     import whomay
     whomay.check(facts, rep, "C06.S7", "C06")
     whomay.check_new_statics(facts, rep, "C06.S7", "C06")
+    whomay.check_new_trait_methods(facts, rep, "C06.S7", "C06")
